@@ -113,6 +113,14 @@ CLAIMED = {
          "C05_NoDatapathResidue at the lost event), PeerHeartbeatPostponesOwn, RecoveryTimeStampConstant, AssociationAcceptedIffConnected, FeaturesMatchConfiguration and HeartbeatAnsweredAnyTime.",
          "Timing with one-sided 20 % tolerances on the harness' clock (not exactness of the time-out); sampled loss patterns per run rather than all interleavings of late answers. " + TRUST,
          "5 C12"),
+ "C10": ("TLA+ Lifecycle (goroutines, channels, sync.Once of node / association life-cycle as coded; complete interleaving graphs, liveness) + forced and randomised schedules on the real agent judged by R-spec TraceE2E!StopEv",
+         "Design level: Lifecycle.tla models every interleaving point of conn Serve / reader / heartbeat monitor / Shutdown sub-steps / node Serve with Go channel semantics; TLC checks NoPanic, DeletedAtMostOnce, NoDeleteAgainstClosedDatapath, "
+         "StoppedClean on the complete graphs of 1 and 2 associations (2.8 M states) and StopTerminates under fairness. Implementation: (a) deterministic forced schedules through the blocking scheduling gates (a second Shutdown provoked "
+         "after the first completed: heartbeat-dead vs stop, release vs stop, node held before exit); (b) a seeded random scheduler that arms the gate at every scheduling point, releases parked goroutines one at a time and stalls one class "
+         "of steps per run; (c) randomised timing of release / unanswered heartbeats / read time-out / SIGTERM over 0..8 associations (one scale point 40-100) with requests in flight, half of the shards under the race detector. "
+         "TLC judges StopCompletesWithoutPanic, StopInBoundedTime, EachSessionRemovedExactlyOnce (no residue, no failed or repeated delete) and the C02/C03 invariants on re-association and on the other associations.",
+         "Schedules at the implementation are forced / sampled, not enumerated from the model's graph (edge cover through GEN is future work); bounded stop time is 5 s (20 s under the gating scheduler). " + TRUST,
+         "5 C10"),
 }
 
 def hooks_commits():
